@@ -53,16 +53,16 @@ type IXStep struct {
 
 // SynthFootprint describes a synthetic footprint.
 type SynthFootprint struct {
-	FileLen   int      `json:"file_len"`
-	FamilyLen int      `json:"family_len"`
-	Index     uint16   `json:"index"`
-	Instance  uint16   `json:"instance"`
-	Runes     []rune   `json:"runes,omitempty"`
-	NScripts  int      `json:"n_scripts"`
+	FileLen   int       `json:"file_len"`
+	FamilyLen int       `json:"family_len"`
+	Index     uint16    `json:"index"`
+	Instance  uint16    `json:"instance"`
+	Runes     []rune    `json:"runes,omitempty"`
+	NScripts  int       `json:"n_scripts"`
 	Langs     [8]uint64 `json:"langs"`
-	Style     uint8    `json:"style"`
-	WeightBit uint32   `json:"weight_bits"`
-	StretchBt uint32   `json:"stretch_bits"`
+	Style     uint8     `json:"style"`
+	WeightBit uint32    `json:"weight_bits"`
+	StretchBt uint32    `json:"stretch_bits"`
 }
 
 type SynthEntry struct {
@@ -235,16 +235,16 @@ type ixWorld struct {
 	ticks  int
 	stamps map[string]int64 // rel path -> simulated mtime (regular files)
 	// paths whose entry may legitimately be stale (mtime collision created by a clock fault)
-	stale    map[string]bool
-	prevEnt  map[string]string // path -> entry digest at the previous boot
-	lastIdx  fontscan.VerifIndex
-	haveLast bool
-	trace    uint64
-	states   map[string]bool
-	refN     int
+	stale     map[string]bool
+	prevEnt   map[string]string // path -> entry digest at the previous boot
+	lastIdx   fontscan.VerifIndex
+	haveLast  bool
+	trace     uint64
+	states    map[string]bool
+	refN      int
 	corrupted bool // the cache file holds stored-byte corruption (not a pure crash image)
 	// digests of the indexes a pure crash can legitimately leave in the cache file
-	legit     [][]string
+	legit [][]string
 	// entry digests that came verbatim out of a corrupted-but-well-formed cache image: they may
 	// legitimately survive refreshes (reused by path+mtime) until the file changes
 	tainted   map[string]bool
